@@ -234,7 +234,8 @@ type PathCfg struct {
 	// SelectEvent returns the event classes of choosing state k of sel (k = -1: default).
 	SelectEvent func(sel *ssa.Select, k int) []string
 	// Branch returns event classes for taking (taken=true: first successor) a conditional branch.
-	Branch func(ifi *ssa.If, taken bool) []string
+	// cond is the branch condition with phis resolved along the path taken so far.
+	Branch func(ifi *ssa.If, cond ssa.Value, taken bool) []string
 	// Inline decides whether a call to a module function is expanded.
 	Inline func(callee *ssa.Function) bool
 	// HigherOrder: canonical callee name -> index (among non-receiver args) of a
@@ -256,10 +257,14 @@ type penv struct {
 	exclude map[*ssa.Select]map[int]bool
 	back    map[edge]int
 	defers  []*ssa.Defer
+	phiIn   map[*ssa.Phi]ssa.Value
 }
 
 func (e *penv) clone() *penv {
-	n := &penv{consts: map[ssa.Value]constant.Value{}, fields: map[string]constant.Value{}, chosen: map[*ssa.Select]int{}, exclude: map[*ssa.Select]map[int]bool{}, back: map[edge]int{}}
+	n := &penv{consts: map[ssa.Value]constant.Value{}, fields: map[string]constant.Value{}, chosen: map[*ssa.Select]int{}, exclude: map[*ssa.Select]map[int]bool{}, back: map[edge]int{}, phiIn: map[*ssa.Phi]ssa.Value{}}
+	for k, v := range e.phiIn {
+		n.phiIn[k] = v
+	}
 	for k, v := range e.consts {
 		n.consts[k] = v
 	}
@@ -304,7 +309,7 @@ func EnumPaths(fn *ssa.Function, start *ssa.BasicBlock, cfg *PathCfg) ([]Path, b
 	if start == nil {
 		start = fn.Blocks[0]
 	}
-	env := &penv{consts: map[ssa.Value]constant.Value{}, fields: map[string]constant.Value{}, chosen: map[*ssa.Select]int{}, exclude: map[*ssa.Select]map[int]bool{}, back: map[edge]int{}}
+	env := &penv{consts: map[ssa.Value]constant.Value{}, fields: map[string]constant.Value{}, chosen: map[*ssa.Select]int{}, exclude: map[*ssa.Select]map[int]bool{}, back: map[edge]int{}, phiIn: map[*ssa.Phi]ssa.Value{}}
 	en.walk(fn, start, nil, 0, env, nil, nil, 0, func(p Path, _ *penv) {
 		if len(en.paths) >= cfg.MaxPaths {
 			en.truncated = true
@@ -384,6 +389,22 @@ func (en *enumerator) evalConst(v ssa.Value, env *penv) constant.Value {
 	return nil
 }
 
+// resolvePhi follows phis to the value that flowed in along the current path.
+func resolvePhi(v ssa.Value, env *penv) ssa.Value {
+	for i := 0; i < 20; i++ {
+		phi, ok := v.(*ssa.Phi)
+		if !ok {
+			return v
+		}
+		in, ok := env.phiIn[phi]
+		if !ok || in == nil {
+			return v
+		}
+		v = in
+	}
+	return v
+}
+
 func fieldKey(fa *ssa.FieldAddr) string {
 	return fmt.Sprintf("%p.%d", strip(fa.X), fa.Field)
 }
@@ -447,6 +468,7 @@ func (en *enumerator) walk(fn *ssa.Function, b *ssa.BasicBlock, pred *ssa.BasicB
 					break
 				}
 				if pi >= 0 {
+					env.phiIn[phi] = resolvePhi(phi.Edges[pi], env)
 					if c := en.evalConst(phi.Edges[pi], env); c != nil {
 						newc[phi] = c
 						continue
@@ -567,7 +589,7 @@ func (en *enumerator) walk(fn *ssa.Function, b *ssa.BasicBlock, pred *ssa.BasicB
 					return events
 				}
 				ev := events
-				for _, cl := range en.cfg.Branch(x, taken) {
+				for _, cl := range en.cfg.Branch(x, resolvePhi(x.Cond, env), taken) {
 					ev = append(append([]Event(nil), ev...), Event{Class: cl, In: x})
 				}
 				return ev
